@@ -291,3 +291,7 @@ func (c *BClient) Fire(method uint16, attrs func(b *wire.B)) [12]byte {
 
 	return tx
 }
+
+// LifeLock / LifeUnlock guard BW.Life for readers.
+func (w *BW) LifeLock()   { w.mu.Lock() }
+func (w *BW) LifeUnlock() { w.mu.Unlock() }
